@@ -62,6 +62,7 @@ class Trace:
         self.requests = []  # B2
         self.packages = []  # B3
         self.tx_ends = []  # Transaction.__exit__
+        self.injected = []  # exceptions injected by scripts / middleware
         self.effects = []  # execute_* calls
         self.sim_responses = []  # SimulatedOrder.cancel / update results
         self.placements = []  # SimulatedOrder.place
@@ -816,6 +817,10 @@ class ScriptedStrategy(BaseStrategy):
             self.by_step[(act["m"], act["at"])].append(act)
         self.refs = {}  # ref -> order
         self.trade_refs = {}
+        # fault injection: [(callback kind, nth invocation of that callback)] -> raise inside the callback
+        self.raise_at = {(k, n) for k, n in script.get("raise_at", [])}
+        self.cb_count = collections.Counter()
+        self.received = []  # (callback kind, market, publish time) in order
         self.line_info = script.get("line_info")
 
     # -- helpers
@@ -921,10 +926,27 @@ class ScriptedStrategy(BaseStrategy):
             raise
 
     # -- callbacks
+    def _enter(self, kind, market, market_book=None):
+        n = self.cb_count[kind]
+        self.cb_count[kind] += 1
+        pt = getattr(market_book, "publish_time_epoch", None) if market_book is not None else (market.market_book.publish_time_epoch if market.market_book is not None else None)
+        self.received.append((kind, market.market_id, pt))
+        if (kind, n) in self.raise_at:
+            self.tr.injected.append({"seq": self.tr.nseq(), "tick": self.tr.tick, "strategy": self.name, "kind": kind, "n": n})
+            raise ValueError("injected in %s #%d of %s" % (kind, n, self.name))
+
+    def process_new_market(self, market, market_book):
+        self._enter("new_market", market, market_book)
+
     def check_market_book(self, market, market_book):
+        self._enter("check", market, market_book)
         return True
 
+    def process_closed_market(self, market, market_book):
+        self.received.append(("closed", market.market_id, market_book.publish_time_epoch))
+
     def process_market_book(self, market, market_book):
+        self._enter("book", market, market_book)
         i = self.idx[market.market_id]
         self.idx[market.market_id] += 1
         for act in self.by_step.get((market.market_id, i), ()):
@@ -932,6 +954,7 @@ class ScriptedStrategy(BaseStrategy):
                 self._do(market, act)
 
     def process_orders(self, market, orders):
+        self._enter("orders", market)
         i = self.idx[market.market_id]  # index of the book about to be delivered to process_market_book
         for act in self.by_step.get((market.market_id, i), ()):
             if act.get("cb") == "orders" and not act.get("_done"):
@@ -1021,6 +1044,8 @@ def run_case(case, extra_strategies=None, audit=True, pre_run=None, observers=()
             aud = AuditStrategy(tr, market_filter=mf, name="__audit__", max_order_exposure=None, max_selection_exposure=None)
             fw.add_strategy(aud)
             tr.audit = aud
+            for mw in case.get("_middlewares", ()):
+                fw.add_market_middleware(mw(tr))
             fw.add_market_middleware(AuditMiddleware(tr))
         lr = case.get("line_results")
         if lr:
